@@ -31,7 +31,12 @@ __CPROVER_ensures(RET == NULL ==> (heap->wr == OLD(heap->wr) && heap->count == O
 __CPROVER_ensures(RET != NULL ==> (RET == heap->data + OLD(heap->wr) && heap->count < OLD(heap->count) && OLD(heap->count) - heap->count <= n + 1
     && heap->wr == (OLD(heap->wr) + (OLD(heap->count) - heap->count)) % heap->size))
 /* text integrity: byte k of the stored text is byte k of s, and the byte after the text is NUL */
-__CPROVER_ensures((RET != NULL && gh_w + 1 < OLD(heap->count) - heap->count) ==> heap->data[(OLD(heap->wr) + gh_w) % heap->size] == s[gh_w < n ? gh_w : 0])
+/* (stated separately for the part before and the part after the wrap-around, each with the witness gh_w) */
+#define H_TEXTLEN (OLD(heap->count) - heap->count - 1)
+#define H_FIRST (H_TEXTLEN < heap->size - OLD(heap->wr) ? H_TEXTLEN : heap->size - OLD(heap->wr))
+__CPROVER_ensures((RET != NULL && gh_w < H_FIRST) ==> heap->data[OLD(heap->wr) + gh_w] == s[gh_w < n ? gh_w : 0])
+__CPROVER_ensures((RET != NULL && gh_w < H_TEXTLEN - H_FIRST) ==> heap->data[gh_w] == s[H_FIRST + gh_w < n ? H_FIRST + gh_w : 0])
+__CPROVER_ensures(RET != NULL ==> H_TEXTLEN <= n)
 __CPROVER_ensures(RET != NULL ==> heap->data[(heap->wr + heap->size - 1) % heap->size] == 0)
 /* nothing outside the allocated bytes changes */
 __CPROVER_ensures((RET != NULL && gh_w < heap->size && ((gh_w + heap->size - OLD(heap->wr)) % heap->size) >= OLD(heap->count) - heap->count)
